@@ -5,7 +5,7 @@ import SaModel.Lemmas.C03PXNew
 Unlike `PX` this needs assumptions, all explicit:
   * `SValOK x`   the pushed value is a well-formed serde value: an `iN`/`uN` call carries a value of that width,
                  an `f32`/`f64` call a bit pattern of that width
-  * `ExtOK ext`  what chrono parsing returns fits in 64 bits (dates: after scaling to milliseconds)
+  * `ExtOK ext`  what chrono parsing returns fits the column's storage (Date32: i32; everything else: i64)
   * `FloatOK`    the IEEE conversions of `Basic/Float.lean` return bit patterns of the target width
                  (proved: Lemmas/FloatBounds.lean, instance `floatOK` in Lemmas/C03Final.lean)
 -/
@@ -34,8 +34,8 @@ theorem inLR_zero (k : LeafKind) : inLR k 0 := by
   | _ => (simp only [leafRange, i32Rng, i64Rng, Option.some.injEq] at hr; subst hr; decide)
 
 structure ExtOK (ext : Ext) : Prop where
-  date : ∀ s v, ext.parseDate s = .ok v →
-    -9223372036854775808 ≤ v * 86400000 ∧ v * 86400000 ≤ 9223372036854775807
+  date32 : ∀ s v, ext.parseDate false s = .ok v → -2147483648 ≤ v ∧ v ≤ 2147483647
+  date64 : ∀ s v, ext.parseDate true s = .ok v → -9223372036854775808 ≤ v ∧ v ≤ 9223372036854775807
   time : ∀ u s v, ext.parseTime u s = .ok v → -9223372036854775808 ≤ v ∧ v ≤ 9223372036854775807
   timestamp : ∀ u utc s v, ext.parseTimestamp u utc s = .ok v → -9223372036854775808 ≤ v ∧ v ≤ 9223372036854775807
   duration : ∀ u s v, ext.parseDuration u s = .ok v → -9223372036854775808 ≤ v ∧ v ≤ 9223372036854775807
@@ -91,17 +91,18 @@ theorem convLeaf_inLR (ext : Ext) (he : ExtOK ext) (hf : FloatOK) (k : LeafKind)
   · cases h; rename_i _ w; have := hf.ofInt32 w; exact inLR_mk rfl (by omega) (by omega)
   · cases h; simp only [ScalarOK] at hx; exact inLR_mk rfl (by omega) (by omega)
   · cases h; rename_i b; have := hf.narrow64_32 b; exact inLR_mk rfl (by omega) (by omega)
+  · cases h; rename_i c; have := hf.ofInt32 c; exact inLR_mk rfl (by omega) (by omega)
   -- f64
   · cases h; rename_i _ w; have := hf.ofInt64 w; exact inLR_mk rfl (by omega) (by omega)
   · cases h; rename_i b; have := hf.widen32_64 b; exact inLR_mk rfl (by omega) (by omega)
   · cases h; simp only [ScalarOK] at hx; exact inLR_mk rfl (by omega) (by omega)
+  · cases h; rename_i c; have := hf.ofInt64 c; exact inLR_mk rfl (by omega) (by omega)
   -- f16
   · cases h; rename_i b; have := hf.narrow32_16 b; exact inLR_mk rfl (by omega) (by omega)
   · cases h; rename_i b; have := hf.narrow64_16 b; exact inLR_mk rfl (by omega) (by omega)
   -- date32
-  · obtain ⟨d, _, h2⟩ := (bind_ok _ _ _).1 h
-    obtain ⟨rfl, h1, h2⟩ := tryInto_inRange h2
-    exact inLR_mk rfl h1 h2
+  · have := he.date32 _ _ h
+    exact inLR_mk rfl this.1 this.2
   · cases h
     have := (inRange_iff _ _).1 (hx.resolve_left (by first | decide | (intro e; subst e; simp at hne)))
     exact inLR_mk rfl this.1 this.2
@@ -112,9 +113,7 @@ theorem convLeaf_inLR (ext : Ext) (he : ExtOK ext) (hf : FloatOK) (k : LeafKind)
       exact inLR_mk rfl this.1 this.2
     · simp [fail] at h
   -- date64
-  · obtain ⟨d, hd, h2⟩ := (bind_ok _ _ _).1 h
-    cases h2
-    have := he.date _ _ hd
+  · have := he.date64 _ _ h
     exact inLR_mk rfl this.1 this.2
   · cases h
     have := (inRange_iff _ _).1 (hx.resolve_left (by first | decide | (intro e; subst e; simp at hne)))
